@@ -157,6 +157,10 @@ func verifyDeputy(block *types.Block, canLoader CandidateLoader) error {
 			log.Errorf("nodes in body: %s\nnodes in local: %s", block.DeputyNodes, deputies)
 			return ErrVerifyBlockFailed
 		}
+	} else if len(block.DeputyRoot()) != 0 || len(block.DeputyNodes) != 0 {
+		// Only the snapshot block contains deputy nodes. Nothing verifies them in other blocks
+		log.Error("Consensus verify fail: deputy nodes in a block which is not snapshot block", "height", block.Height())
+		return ErrVerifyBlockFailed
 	}
 	return nil
 }
